@@ -372,6 +372,10 @@ class Engine:
         return done
 
     def binop(s, op, a, b, bits):
+        if op in ('shl', 'lshr', 'ashr') and bits in (32, 64):
+            # a shift count >= the width is undefined in C and poison in LLVM IR; the build users run (x86-64) masks the count to the width, and so does
+            # the engine: a change that introduces such a shift (seed C18-6) then shows the value the real binary computes instead of an engine/native mismatch
+            b = (b & (bits - 1)) if not is_sym(b) else simp(bv(b, bits) & (bits - 1))
         if not is_sym(a) and not is_sym(b):
             if op == 'add': return mask(a + b, bits)
             if op == 'sub': return mask(a - b, bits)
